@@ -18,7 +18,7 @@ CONSTANTS
   FocusMax = 4
   FixO1 = TRUE
   FixRetry = FALSE
-  FixRetryList = FALSE
+  FixRetryList = TRUE
   MaxTried = 64
 INVARIANTS Q1r
 VIEW MCView
